@@ -26,7 +26,7 @@ def isWord (k : UInt8) : Bool := k == kW || k == kQ
 
 /-- the `for` loop of a parenthesised fixed list in `parseField` -/
 def fixedLoop (cx : Ctx) : Nat → Field → Bytes → ErrSt → FR
-  | 0, f, _, e => ⟨f, [], e⟩
+  | 0, f, q, e => ⟨f, [], recErr cx q .fuel e⟩
   | n + 1, f, q, e =>
     let t := next cx false q e
     if isWord t.tok.kind then fixedLoop cx n { f with fixed := f.fixed ++ [t.tok.tok] } t.rest t.err
@@ -54,7 +54,7 @@ def parseField (cx : Ctx) (q : Bytes) (e : ErrSt) : FR :=
 
 /-- the field loop of `ParseProjection` -/
 def projLoop (cx : Ctx) : Nat → List Field → Bytes → ErrSt → List Field × Bytes × ErrSt
-  | 0, fs, _, e => (fs, [], e)
+  | 0, fs, q, e => (fs, [], recErr cx q .fuel e)
   | n + 1, fs, q, e =>
     let t := next cx false q e
     if t.tok.kind == 0 then (fs, t.cur, t.err)
